@@ -45,7 +45,7 @@ pub struct Step {
 
 /// first line: the three probed variables, hex encoded (`S:<hex>` set, `U` unset), so that values with
 /// newlines, quotes or non-ASCII text are compared exactly; further lines: the other state classes
-const PROBE: &str = r#"printf 'VARS %s|%s|%s\n' "$( [ -n "${SCRUT_VERIF_INHERITED+s}" ] && { printf 'S:'; printf %s "$SCRUT_VERIF_INHERITED" | od -An -v -tx1 | tr -d ' \n'; } || printf U )" "$( [ -n "${X+s}" ] && { printf 'S:'; printf %s "$X" | od -An -v -tx1 | tr -d ' \n'; } || printf U )" "$( [ -n "${Y+s}" ] && { printf 'S:'; printf %s "$Y" | od -An -v -tx1 | tr -d ' \n'; } || printf U )"; declare -p ARR 2>/dev/null || echo "ARR unset"; declare -p MAP 2>/dev/null || echo "MAP unset"; if declare -F f >/dev/null; then f; else echo "f undefined"; fi; alias ll 2>/dev/null || echo "ll unaliased"; shopt -p extglob; set -o | grep -E '^(pipefail|nounset|noglob) '; pwd; dirs; export -p | grep -cE ' (X|Y)='"#;
+const PROBE: &str = r#"printf 'VARS %s|%s|%s\n' "$( [ -n "${SCRUT_VERIF_INHERITED+s}" ] && { printf 'S:'; printf %s "$SCRUT_VERIF_INHERITED" | od -An -v -tx1 | tr -d ' \n'; } || printf U )" "$( [ -n "${X+s}" ] && { printf 'S:'; printf %s "$X" | od -An -v -tx1 | tr -d ' \n'; } || printf U )" "$( [ -n "${Y+s}" ] && { printf 'S:'; printf %s "$Y" | od -An -v -tx1 | tr -d ' \n'; } || printf U )"; declare -p ARR 2>/dev/null || echo "ARR unset"; declare -p MAP 2>/dev/null || echo "MAP unset"; if declare -F f >/dev/null; then f; else echo "f undefined"; fi; alias ll 2>/dev/null || echo "ll unaliased"; shopt -p extglob; set -o | grep -E '^(pipefail|nounset|noglob) '; pwd; dirs; export -p | grep -cE ' (X|Y)='; declare -p | grep -E '^declare -[-a-zA-Z]* (NB_[A-Za-z0-9_]*|[A-Za-z0-9_]*_NB)=' | sort"#;
 
 fn step_pool() -> Vec<Step> {
     let mut v = step_pool_raw();
@@ -105,6 +105,10 @@ fn step_pool_raw() -> Vec<Step> {
         s("mkdir -p d1 d2 && pushd d1 >/dev/null && pushd ../d2 >/dev/null", "dirstack"),
         s("popd >/dev/null 2>&1 || true", "dirstack"),
         s("readonly X=frozen", "readonly"),
+        // names that merely start or end like a name on scrut's exclusion list must be carried like any other
+        s(&format!("for n in {}; do declare -g \"${{n}}_NB=nb-$n\"; done", scrut::executors::bash_runner::BASH_EXCLUDED_VARIABLES.iter().filter(|n| !n.starts_with("__")).cloned().collect::<Vec<_>>().join(" ")), "excluded-name-prefix-neighbours"),
+        s(&format!("for n in {}; do export \"NB_${{n}}=nb-$n\"; done", scrut::executors::bash_runner::BASH_EXCLUDED_VARIABLES.iter().filter(|n| !n.starts_with("__")).cloned().collect::<Vec<_>>().join(" ")), "excluded-name-suffix-neighbours"),
+        s("NB_MULTI=$'line1\\nline2'; UID_NB=$'two\\nlines'", "excluded-name-neighbours-multiline"),
         Step { snippet: "X=from-detached; cd /".to_string(), detached: true, class: "detached", action: format!("a1:{}", hex(b"from-detached")), idx: 0 },
     ]
 }
